@@ -4,6 +4,10 @@ use probminhash::probminhasher::sig::Sig;
 use serde_json::{json, Value};
 
 fn lens(rng: &mut SplitMix64) -> usize {
+    let xs = crate::util::extra_sizes();
+    if !xs.is_empty() && rng.coin(0.3) {
+        if let Some(v) = crate::util::near_size(rng, &xs, 400_000) { return v as usize; }
+    }
     match rng.below(6) { 0 => 0, 1 => 1, 2 => rng.range(2, 9) as usize, 3 => rng.range(10, 300) as usize, 4 => 100_000, _ => rng.range(1, 40) as usize }
 }
 
@@ -51,7 +55,32 @@ pub fn cases(args: &[String]) {
             out.push(json!({"ty": "String", "values": s.as_bytes(), "bytes": s.get_sig()}));
         }
     }
-    println!("{}", json!({ "cases": out }));
+    // the Sha variant hashes the whole byte identity: two long keys that differ only in their last element are different
+    // objects, so with equal weights each of them wins some of the 128 positions (one key winning all has probability 2^-127)
+    let mut long_keys: Vec<Value> = Vec::new();
+    {
+        use indexmap::IndexMap;
+        use probminhash::probminhasher::ProbMinHash3aSha;
+        let mut ls: Vec<usize> = vec![1000, 70_000];
+        let xs = crate::util::extra_sizes();
+        for s in xs.iter().take(4) { for v in [*s + 1, s + s / 2 + 3, 3 * s + 7] { if v <= 2_000_000 { ls.push(v as usize); } } }
+        for l in ls {
+            crate::util::tick_idx(l as u64, json!({"long_key_bytes": l}));
+            let k1: Vec<u8> = (0..l).map(|i| (i * 7 + 3) as u8).collect();
+            let mut k2 = k1.clone();
+            k2[l - 1] ^= 0x55;
+            let mut s = ProbMinHash3aSha::<Vec<u8>>::new(128, Vec::new());
+            let mut im: IndexMap<Vec<u8>, f64> = IndexMap::new();
+            im.insert(k1.clone(), 1.0);
+            im.insert(k2.clone(), 1.0);
+            s.hash_weigthed_idxmap(&im);
+            let w1 = s.get_signature().iter().filter(|k| **k == k1).count();
+            let w2 = s.get_signature().iter().filter(|k| **k == k2).count();
+            long_keys.push(json!({"bytes": l, "wins": [w1, w2]}));
+        }
+    }
+    crate::util::wd_pause();
+    println!("{}", json!({ "cases": out, "sha_long_keys": long_keys }));
 }
 
 /// memory behaviour: many calls, results dropped; a double free aborts the process
@@ -70,5 +99,6 @@ pub fn stress(args: &[String]) {
         let s = "x".repeat(l % 100);
         total += s.get_sig().len() + (r as u32).get_sig().len();
     }
+    crate::util::wd_pause();
     println!("{}", json!({"ok": true, "bytes": total}));
 }
